@@ -99,8 +99,9 @@ PROPS = {
         "assumptions": CORE_ASSUME,
     },
     "C12": {
-        "profile": "throw", "n_quick": 5, "n_thorough": 40, "nops": 16, "nlists": 3, "cfgs": SIX,
-        "corpus": ["throw_positions"],
+        "profile": "throw", "n_quick": 4, "n_thorough": 30, "nops": 16, "nlists": 3,
+        "cfgs": SIX + ["back:p1", "back:p2", "back:p3", "back11:p3", "mp11:p1", "mp11:p2", "mp11:p3", "mp11_fct:p3"],
+        "corpus": ["throw_positions", "throw_nested_entry"],
         "monitor": M.mon_C12,
         "relevant": M.relevant_by(M.proj(M.ALL, keep_res=True, keep_snap=True, keep_ev=True)),
         "rule": "plans make the n-th behaviour invocation of an operation throw std::runtime_error (guards, actions, "
@@ -138,13 +139,20 @@ PROPS = {
                 "parts, blank/tab padding at every gap): exhaustive over the shape space x 3 random fillings, plus seeded random "
                 "lines; the library's own parse_row / cleanup_token / parse_action / count_actions / count_transitions are called "
                 "at run time and compared (a) with the fields the grammar defines and (b) with the Coq transcription; a separate "
-                "malformed stream is compared with the transcription only; distinct = distinct line texts",
-        "assumptions": ["lines shorter than 2^64 characters", "the type-level part (parse_guard, create_transition_table) is not modelled"],
+                "malformed stream is compared with the transcription only; distinct = distinct line texts. Guard expressions: "
+                "trees of the C++-precedence grammar (||, &&, !, parentheses nested up to depth 3, blank/tab padding) are printed, "
+                "put into a transition line and given to create_transition_table at compile time; the And_/Or_/Not_ type the "
+                "library builds is printed by a type-to-text template and compared (a) by truth table with the tree that was "
+                "printed and (b) exactly with the Coq transcription of find_top_level / parse_guard_simple",
+        "assumptions": ["lines shorter than 2^64 characters",
+                        "create_transition_table's row assembly, parse_guard_advanced (And(..)/Or(..)/Not(..) syntax), flags, entry/exit lines and the other front-ends (basic rows, eUML) are not modelled"],
     },
     "C15": {
         "profile": "copy", "n_quick": 5, "n_thorough": 40, "nops": 22, "nlists": 3, "cfgs": SIX,
         "ops": lambda g, md, n: g.gen_ops_copy(md, n, mode="move" if g.rng.random() < 0.5 else "copy"),
         "ops_cfg": True,
+        "corpus": ["copyhist_none", "copyhist_always", "copyhist_shallow", "assignhist_none", "assignhist_always",
+                   "assignhist_shallow", "movehist_always", "movehist_shallow"],
         "monitor": M.mon_C15,
         "relevant": M.relevant_by(M.proj(M.ALL, keep_res=True, keep_snap=True, keep_ev=True)),
         "rule": "nested machines (history, deferral, completion, exit points); object 0 is driven, copied / assigned (and "
@@ -157,6 +165,7 @@ PROPS = {
         "profile": "copy", "n_quick": 5, "n_thorough": 40, "nops": 20, "nlists": 3, "cfgs": ["back", "back_fct", "back11"],
         "ops": lambda g, md, n: g.gen_ops_copy(md, n, mode="saveload", pending=False),
         "extra_flags": ("-DH_SERIALIZE",),
+        "corpus": ["savehist_none", "savehist_always", "savehist_shallow"],
         "monitor": M.mon_C15,
         "relevant": M.relevant_by(M.proj(M.ALL, keep_res=True, keep_snap=True, keep_ev=True)),
         "rule": "same machines as C15 under back / back11: at quiescent points with empty queues the machine is saved to a text "
